@@ -175,7 +175,9 @@ def gen_script_queue(rnd, dyn=None):
         handlers.append(['N', acts])
     # keep the process finite: a post for the current time only goes to a handler with a higher index
     for h, (k, acts) in enumerate(handlers):
-        handlers[h] = [k, [(['POSTE', 0.5, a[2]] if (a[0] == 'POSTE' and a[1] == 0.0 and a[2] <= h) else a) for a in acts]]
+        acts = [(['POSTE', 0.5, a[2]] if (a[0] == 'POSTE' and a[1] == 0.0 and a[2] <= h) else a) for a in acts]
+        acts = [a for a in acts if not (a[0] == 'POSTABS' and a[2] <= h)]      # an absolute-time post may not re-arm its own chain
+        handlers[h] = [k, acts]
     nodes, edges = rand_net(rnd, 2, 5)
     posts = [[rnd.choice(times), rnd.choice(nodes), rnd.randrange(nh)] for _ in range(rnd.randint(2, 7))]
     perel = [[0, rnd.choice([0.125, 0.5]), rnd.randrange(nh)]] if rnd.random() < 0.6 else []
